@@ -192,7 +192,10 @@ def sys_leaves():
           A.Sequence(A.Renamed("v", A.Default(A.Alias("Byte"), 2)), A.Renamed("b", A.IfThenElse(A.Bin("==", A.T("v"), A.C(2)), A.Alias("Int16ub"), A.Alias("Byte")))),
           A.BitStruct(A.Renamed("a", A.BitsInteger(3)), A.Renamed("b", A.BitsInteger(5, signed=True))),
           A.BitStruct(A.Renamed("a", A.Alias("Nibble")), A.Renamed("b", A.BitsInteger(12)), A.Renamed("c", A.BitsInteger(16, signed=True, swapped=True))),
-          A.Computed(A.C(5)), A.Pass, A.Padding(2), A.Tell]
+          A.Computed(A.C(5)), A.Pass, A.Padding(2), A.Tell,
+          # wrappers that size their window from the member's sizeof at construction, over members that exactly fill their alignment
+          A.ByteSwapped(A.AlignedStruct(2, A.Renamed("a", A.Alias("Int16ub")), A.Renamed("b", A.Alias("Int8ub")))), A.BitsSwapped(A.Aligned(4, A.Alias("Int32ub"))),
+          A.Bitwise(A.Aligned(8, A.Struct(A.Renamed("a", A.Alias("Nibble")), A.Renamed("b", A.Alias("Nibble")))))]
     return L
 
 def sys_wrappers():
@@ -210,6 +213,9 @@ def sys_wrappers():
          lambda x: A.ProcessXor(0x5a, A.Prefixed(A.Alias("Byte"), x)) if False else A.Prefixed(A.Alias("Byte"), A.ProcessXor(0x5a, x)),
          lambda x: A.Prefixed(A.Alias("Byte"), A.ProcessXor(b"\x01\x02\x03", x)), lambda x: A.Prefixed(A.Alias("Byte"), A.ProcessRotateLeft(3, 1, x)),
          lambda x: A.Prefixed(A.Alias("Byte"), A.NullStripped(x, pad=b"\xfd")),
+         # a relative seek (terminator left in place) inside a region that does not start at offset 0
+         lambda x: A.Prefixed(A.Alias("Byte"), A.Sequence(A.NullTerminated(x, term=b"\xfe", consume=False), A.Const(b"\xfe"))),
+         lambda x: A.FixedSized(14, A.Sequence(A.NullTerminated(x, term=b"\xfe\xfe", consume=False, include=True), A.Bytes(1))),
          # whole-byte and mixed rotations over groups wider than two bytes (the member padded to a multiple of the group)
          lambda x: A.FixedSized(12, A.ProcessRotateLeft(24, 4, A.Padded(12, x))), lambda x: A.FixedSized(12, A.ProcessRotateLeft(8, 3, A.Padded(12, x))),
          lambda x: A.FixedSized(12, A.ProcessRotateLeft(-13, 6, A.Padded(12, x))),
